@@ -3,8 +3,8 @@
 (* statements, sections nested <= MaxDepth (2), <= MaxSects (2) SECTION statements, two base names per family:       *)
 (* InvAll = lookup as coded = declarative rule (Agrees), the whole table = innermost known definition for every     *)
 (* name and section (TableIsInnermostKnown), later passes alike, deviations named.                                   *)
-(*   MacroScope_MC.cfg        quick:    free4 (AQuick, 4) gen (AGen, 3) nop db incl (ANames, 3)                      *)
-(*   MacroScope_MC5.cfg       thorough: free5 (AQuick, 5) full4 (AFull, 4) nop4 db4 incl4 (ANames, 4)                *)
+(*   MacroScope_MC.cfg        quick:    gen4 (AGen, 4) focus6 (AFocus, 6) nop db incl (ANames, 3)                    *)
+(*   MacroScope_MC5.cfg       thorough: free5 (AQuick, 5) full4 (AFull, 4) focus7 (AFocus, 7) nop4 db4 incl4 (ANames, 4) *)
 (*   MacroScope_MC_fixed.cfg  Fixed = all deviations: no deviation fires, agreement unconditional, no crash          *)
 (*   MacroScope_MC_dev_*.cfg  the code as it is with the invariant that excludes a deviation: TLC must refute        *)
 (* The deviations are also shown by witness programs (ASSUMEs below, evaluated in every run).                         *)
@@ -36,10 +36,15 @@ AIncl == ANames("INCLUDE")
 \* replay alphabet: AQuick plus IFDEF and the macro that defines a {GLOBAL} macro whose copy takes its own name
 AGen == AQuick \cup IfDefs({"AA"}) \cup DefIns({"S1_AA"}, {"AA"}, {"glob"})
 
+\* longer histories over few statements: same name inside and outside, after the section has ended, defined through
+\* a macro called inside / outside
+AFocus == Sect \cup Defs({"AA"}, {"plain"}) \cup DefIns({"BB"}, {"AA"}, {"plain"}) \cup Calls({"AA", "BB"}, {FALSE})
+
 Fam(a, maxlen, printlen) == [alphabet |-> a, maxlen |-> maxlen, printlen |-> printlen]
-QuickFamily(f) == CASE f = "free4" -> Fam(AQuick, 4, 0) [] f = "gen" -> Fam(AGen, 3, 3) [] f = "nop" -> Fam(ANop, 3, 3)
-                    [] f = "db" -> Fam(ADb, 3, 3) [] OTHER -> Fam(AIncl, 3, 3)
-FullFamily(f) == CASE f = "free5" -> Fam(AQuick, 5, 0) [] f = "full4" -> Fam(AFull, 4, 4) [] f = "nop4" -> Fam(ANop, 4, 4)
+QuickFamily(f) == CASE f = "gen4" -> Fam(AGen, 4, 4) [] f = "gen" -> Fam(AGen, 3, 3) [] f = "focus6" -> Fam(AFocus, 6, 6)
+                    [] f = "nop" -> Fam(ANop, 3, 3) [] f = "db" -> Fam(ADb, 3, 3) [] OTHER -> Fam(AIncl, 3, 3)
+FullFamily(f) == CASE f = "free5" -> Fam(AQuick, 5, 0) [] f = "full4" -> Fam(AFull, 4, 4) [] f = "focus7" -> Fam(AFocus, 7, 7)
+                   [] f = "nop4" -> Fam(ANop, 4, 4)
                    [] f = "db4" -> Fam(ADb, 4, 4) [] OTHER -> Fam(AIncl, 4, 4)
 
 \* witnesses: the deviations are in the code as it is (and gone with the repair)
